@@ -3,7 +3,7 @@ use std::collections::HashMap;
 use darling::FromAttributes;
 use proc_macro::TokenStream;
 use quote::format_ident;
-use syn::parse_quote;
+use syn::{ext::IdentExt, parse_quote};
 
 use crate::Flavor;
 
@@ -43,7 +43,7 @@ impl Field {
     fn column_name(&self) -> String {
         match &self.attrs.rename {
             Some(name) => name.clone(),
-            None => self.ident.to_string(),
+            None => self.ident.unraw().to_string(),
         }
     }
 }
